@@ -93,6 +93,11 @@ func HandleNoop(deps ServerDeps, conn net.Conn, tag string, state *models.Client
 
 // ===== IDLE =====
 
+// idleTimeout is how long a client may stay in IDLE without sending anything.
+// RFC 2177 asks clients to re-issue IDLE at least every 29 minutes because servers
+// log out connections that look dead; this is the inactivity limit of the command loop.
+var idleTimeout = 30 * time.Minute
+
 func HandleIdle(deps ServerDeps, conn net.Conn, tag string, state *models.ClientState) {
 	if !state.Authenticated {
 		deps.SendResponse(conn, fmt.Sprintf("%s NO Please authenticate first", tag))
@@ -119,6 +124,8 @@ func HandleIdle(deps ServerDeps, conn net.Conn, tag string, state *models.Client
 	// Track previous state of the folder using new schema
 	prevCount, _ := db.GetMessageCountPerUser(userDB, state.SelectedMailboxID)
 	prevUnseen, _ := db.GetUnseenCountPerUser(userDB, state.SelectedMailboxID)
+
+	idleUntil := time.Now().Add(idleTimeout)
 
 	for {
 		// Poll every 500ms for changes to ensure responsive notifications
@@ -168,6 +175,14 @@ func HandleIdle(deps ServerDeps, conn net.Conn, tag string, state *models.Client
 			if netErr, ok := err.(net.Error); !ok || !netErr.Timeout() {
 				return
 			}
+		}
+
+		// A client that has been silent for the whole inactivity limit is logged out,
+		// exactly as it would be in the command loop
+		if time.Now().After(idleUntil) {
+			deps.SendResponse(conn, "* BYE Autologout; idle for too long")
+			_ = conn.Close()
+			return
 		}
 	}
 }
